@@ -469,3 +469,99 @@ def es1(P, C):
              % ("an unknown number of" if v is None else v, r[0], r[0]))
     if n_ob == 0:
         raise core.AnalysisBroken("ES-1: operator== compares no range of an owned array")
+
+
+def _zero_dim_exits(f, table_expr=None):
+    """IfStmt nodes of f that test the table's ndim for zero and leave (return / throw) in the branch taken when it is zero"""
+    out = []
+    for i in f.walk():
+        if f.k(i) != "IfStmt":
+            continue
+        c, neg = core.cond_polarity(f, f.nodes[i]["cond"])
+        n = f.nodes[c]
+
+        def is_ndim(x):
+            r = ts.root_member(f, x)
+            return bool(r) and r[0] == "ndim"
+        zero_then = None
+        if n["k"] == "BinaryOperator" and n["op"] in ("==", "!=", "<", "<="):
+            orr = f.oriented(c, is_ndim)
+            if orr:
+                cv = f.nodes[orr[2]].get("cv")
+                op = orr[1]
+                if op == "==" and cv == 0:
+                    zero_then = not neg
+                elif op == "!=" and cv == 0:
+                    zero_then = neg
+                elif op == "<" and cv == 1:          # ndim < 1
+                    zero_then = not neg
+                elif op == "<=" and cv == 0:
+                    zero_then = not neg
+        elif n["k"] == "MemberExpr" and is_ndim(c):
+            zero_then = neg                          # if(!ndim) ...
+        if zero_then is None:
+            continue
+        arm = f.nodes[i]["then"] if zero_then else f.nodes[i].get("else", -1)
+        if arm is not None and arm >= 0 and any(f.k(y) in ("ReturnStmt", "CXXThrowExpr") for y in f.walk(arm)):
+            out.append(i)
+    return out
+
+
+def es2(P, C):
+    """ES-2: the operations that walk the per-dimension arrays without being told a dimension refuse an empty table."""
+    PER_DIM = ("order", "knots", "nknots", "naxes", "strides", "extents", "periods", "coefficients")
+    C.rule("ES-2", "an empty table (default-constructed, moved-from, or left empty by a failed read) has ndim == 0 and every array null. The "
+           "operations that take no dimension argument and reach into those arrays — searchcenters (and through it the call operator and the "
+           "evaluator's lookup), get_evaluator, grideval — leave by `return false` / throw when ndim == 0 before the first element of a "
+           "per-dimension array is touched. Without the exit lookup 'succeeds' vacuously on an empty table and the evaluation that follows, "
+           "the kernel selection or the grid walk dereference null", floor=3)
+    n = 0
+    for name in ("searchcenters", "get_evaluator", "grideval"):
+        fs_ = [g for g in P.fns(name) if g.cls == ts.CLS and g.unit == "driver"]
+        if not fs_:
+            raise core.AnalysisBroken("ES-2: %s of the table not found" % name)
+        for f in fs_:
+            pos = f.node_positions()
+            dom = f.dominators()
+
+            def at(i):
+                while i >= 0 and i not in pos:
+                    i = f.parent[i]
+                return pos.get(i)
+            exits = _zero_dim_exits(f)
+            if name == "searchcenters":
+                # the exit has to report failure: every return in its arm is the constant false
+                def reports_failure(z):
+                    rs = [y for y in f.walk(z) if f.k(y) == "ReturnStmt"]
+                    return bool(rs) and all(f.nodes[f.nodes[y]["value"]].get("cv") == 0 for y in rs if f.nodes[y].get("value", -1) >= 0)
+                exits = [z for z in exits if reports_failure(z)]
+            derefs = []
+            for x in f.walk():
+                if f.k(x) == "ArraySubscriptExpr":
+                    r = ts.root_member(f, x)
+                    if r and r[0] in PER_DIM and r[2] == "this":
+                        derefs.append(x)
+            bad = []
+            for x in derefs:
+                px = at(x)
+                # inside a loop over the dimensions nothing is touched when ndim == 0
+                in_dim_loop = any(f.k(a) == "ForStmt" and f.nodes[a].get("cond", -1) >= 0 and "ndim" in f.render(f.nodes[a]["cond"]) and
+                                  x not in set(f.walk(f.nodes[a]["init"])) if f.nodes[a].get("init", -1) >= 0 else False for a in f.ancestors(x))
+                guarded = False
+                for g in exits:
+                    pg = at(f.strip(f.nodes[g]["cond"]))
+                    if pg and px and ((pg[0] == px[0] and pg[1] < px[1]) or (pg[0] != px[0] and pg[0] in dom.get(px[0], ()))):
+                        guarded = True
+                if not guarded and not in_dim_loop:
+                    bad.append(x)
+            # a function all of whose dereferences sit in loops over the dimensions still has to SAY that nothing was found: searchcenters
+            returns_true_vacuously = False
+            if name == "searchcenters" and not exits:
+                returns_true_vacuously = True
+            ok = not bad and not returns_true_vacuously
+            n += 1
+            C.ob("ES-2", ts.fshort(f), "refuses-an-empty-table", ok, f.loc(bad[0]) if bad else f.where(),
+                 "leaves when ndim == 0 before any per-dimension array is touched (%d element accesses)" % len(derefs) if ok else
+                 ("reports success for ndim == 0 (the loop over the dimensions does not run): the caller goes on to evaluate an empty table" if returns_true_vacuously and not bad else
+                  "%s at %s is reached with ndim == 0 (the array is null)" % (f.render(bad[0]).replace("this->", ""), f.loc(bad[0]))))
+    return n
